@@ -678,7 +678,32 @@ func c13(r *mon.Run) {
 			}
 			t.NontrivialDistinct(1)
 		}}
-	r.Exec(hist, ph, pairs, lph, sh, lsh, tsu, rw, fel, twin, epw)
+	// calls that a document never reaches (the right of a short-circuited || / &&, the body of a projection or a filter over an empty
+	// list, a by-expression over an empty list) and that would fail if made - an unknown name, a wrong number of arguments, an
+	// ill-typed literal: the expression is a sentence, every entry point accepts it, and compiled and one-shot give the same value
+	neverMade := []string{"nosuch(a)", "abs()", "abs(a, a)", "length()", "abs('x')", "sort_by(a)", "map(a, a)", "nosuch()", "join(`1`, a)", "not_null()", "merge(`1`)", "abs(&a)", "UPPER(a)", "to_string()", "max_by(a, a)"}
+	neverCtx := []string{"t || %s", "z && %s", "ea[*].%s", "ea[?%s]", "ea[].%s", "e.*.%s", "map(&%s, ea)", "sort_by(ea, &%s)", "max_by(ea, &%s)", "t || (z && %s)", "ea[:5].%s", "[t || %s, t]", "{k: z && %s}", "ea[?%s].x | [0]", "not_null(t || %s)", "missing[*].%s", "s[*].%s", "(t || %s) == t", "length(ea[*].%s)", "z[?%s]"}
+	nmDoc := docs.J(`{"t":"yes","z":null,"ea":[],"e":{},"a":1,"s":"str"}`)
+	nmw := mon.Workload{Name: "calls-that-are-never-made", N: len(neverMade) * len(neverCtx), Batch: 200,
+		Do: func(i int, t *mon.Tally) {
+			expr := strings.Replace(neverCtx[i%len(neverCtx)], "%s", neverMade[i/len(neverCtx)], 1)
+			t.Eval()
+			one := apiSearch(expr, mon.DeepCopy(nmDoc))
+			jp, co := apiCompile(expr)
+			mc := mon.Guard(func() (interface{}, error) { jmespath.MustCompile(expr); return nil, nil })
+			_, perr := jmespath.NewParser().Parse(expr)
+			if one.Panicked || one.Err != nil || co.Panicked || co.Err != nil || mc.Panicked || perr != nil {
+				r.Violate(&mon.Violation{Workload: "calls-that-are-never-made", Index: i, API: "Search / Compile / MustCompile / Parser.Parse", Expr: expr, Doc: nmDoc,
+					Expected: "a sentence of the grammar whose failing call this document never reaches: accepted by every entry point, a value from both Search paths", Observed: fmt.Sprintf("one-shot Search: %s; Compile: %s; MustCompile panicked=%v; Parser.Parse error=%v", one.String(), co.String(), mc.Panicked, perr), Class: "entry points disagree on an expression whose failing call is never made"})
+				return
+			}
+			if cs := apiJP(jp, mon.DeepCopy(nmDoc)); canonOut(cs) != canonOut(one) {
+				r.Violate(&mon.Violation{Workload: "calls-that-are-never-made", Index: i, API: "Search vs Compile+Search", Expr: expr, Doc: nmDoc, Expected: "the one-shot answer " + one.String(), Observed: "compiled: " + cs.String(), Class: "one-shot and compiled answers differ"})
+				return
+			}
+			t.NontrivialDistinct(1)
+		}}
+	r.Exec(hist, ph, pairs, lph, sh, lsh, tsu, rw, fel, twin, epw, nmw)
 }
 
 // c13Rewritable: see the workload compiled-versus-one-shot-on-rewritable-shapes.
